@@ -345,6 +345,40 @@ func main() {
 		}
 	}
 
+	// 3b: every string of one byte (256) and of two bytes (65 536): all five readers return exactly the bytes written
+	for n := 1; n <= 2; n++ {
+		for v := 0; v < 1<<(8*n); v++ {
+			states++
+			payload := []byte{byte(v)}
+			if n == 2 {
+				payload = []byte{byte(v), byte(v >> 8)}
+			}
+			want := string(payload)
+			enc := append(refLE(uint64(n), 4), payload...)
+			enc = enc[:len(enc):len(enc)]
+			bad := func(name, got string, err error) {
+				run.Report("C20|string|inverse-short|"+name, fmt.Sprintf("%s over the %d-byte string % x returned (% x, %v)", name, n, payload, got, err), map[string]any{"string_bytes": fmt.Sprintf("% x", payload)})
+			}
+			if got, err := iohelp.ReadStringBytes(enc); got != want || err != nil {
+				bad("ReadStringBytes", got, err)
+			}
+			if got, err := iohelp.ReadStringBytesSharedMemory(enc); got != want || err != nil {
+				bad("ReadStringBytesSharedMemory", got, err)
+			}
+			if got := iohelp.MustReadStringBytes(enc); got != want {
+				bad("MustReadStringBytes", got, nil)
+			}
+			if got := iohelp.MustReadStringBytesSharedMemory(enc); got != want {
+				bad("MustReadStringBytesSharedMemory", got, nil)
+			}
+			er := iohelp.NewErrorReader(bytes.NewReader(enc))
+			if got := iohelp.ReadString(er); got != want || er.Err != nil {
+				bad("ReadString", got, er.Err)
+			}
+			trans += 5
+		}
+	}
+
 	// 4: GUID layout/inverse: unit vectors, 00..0f and the documented .NET example.
 	guids := [][16]byte{}
 	for i := 0; i < 16; i++ {
